@@ -65,7 +65,7 @@ CHECKS = {
                         "cells the reference leaves unspecified and the two open findings (F13 negative half-way round, F14 astral truncate) are excluded and counted"],
     },
     "C05": {
-        "test": "TestC05", "level": "exploration", "crashy": True,
+        "test": "TestC05", "level": "exploration", "crashy": True, "memcap": True,
         "quick": {"shards": 8, "checks": 4000, "timeout": 900},
         "thorough": {"shards": 16, "checks": 60000, "timeout": 3400},
         "fuzz": [{"name": "FuzzParseFile", "time": "120s"}, {"name": "FuzzParseExpr", "time": "90s"}],
@@ -82,7 +82,7 @@ CHECKS = {
         "assumptions": ["time proportional to the input is read as a linear bound on scanner+parser steps (hook, build tag verif) and, for work outside those loops, as: eightfold input takes at most twentyfold time (judged only above 0.2 s, on three consecutive measurements)"],
     },
     "C06": {
-        "test": "TestC06", "level": "exploration", "crashy": True,
+        "test": "TestC06", "level": "exploration", "crashy": True, "memcap": True,
         "quick": {"shards": 8, "checks": 8000, "timeout": 900},
         "thorough": {"shards": 16, "checks": 60000, "timeout": 3400},
         "rule": "well-typed generated bundles whose expressions are wrapped in operators/functions/directives with no regard for types or "
@@ -235,7 +235,7 @@ CHECKS = {
                         "open finding F34 (JavaScript insertWordBreaks splits surrogate pairs) is excluded by construction"],
     },
     "C17": {
-        "test": "TestC17", "level": "exploration", "crashy": True,
+        "test": "TestC17", "level": "exploration", "crashy": True, "memcap": True,
         "quick": {"shards": 8, "checks": 6000, "timeout": 900},
         "thorough": {"shards": 16, "checks": 80000, "timeout": 3400},
         "fuzz": [{"name": "FuzzExprRoundTrip", "time": "120s"}],
@@ -249,7 +249,7 @@ CHECKS = {
         "assumptions": [],
     },
     "C18": {
-        "test": "TestC18", "level": "exploration", "crashy": True,
+        "test": "TestC18", "level": "exploration", "crashy": True, "memcap": True,
         "quick": {"shards": 6, "checks": 900, "timeout": 900, "shrinktime": "30s"},
         "thorough": {"shards": 16, "checks": 3000, "timeout": 3400, "shrinktime": "60s"},
         "rule": "sequences of 1-30 (thorough 80) parses per case drawn from the C05 families plus complete expressions followed by trailing tokens, "
